@@ -1,5 +1,5 @@
 '''C25: minimal reproducers of the two known findings against the unchanged
-tree.  Run:  /venv/bin/python -m pv.c25_repro {move|fuse}   (PYTHONPATH=/verif/harness)'''
+tree.  Run:  /venv/bin/python -m pv.c25_repro {move|fuse|clb}   (PYTHONPATH=/verif/harness)'''
 import os
 import sys
 import tempfile
@@ -57,7 +57,38 @@ def fuse_same_name_other_offset():
     return "\n".join(lines) + "\n--- before\n" + before + "\n--- after fusion\n" + str(psy.gen)
 
 
+def clb_fused_mixed_offsets():
+    '''C25-const-bounds-fused-mixed-offsets: kb (go_offset_sw, internal T points,
+    2..istop) ends up in ka's constant-bounds loops 1..istop.'''
+    from pv import c25_build as B
+    none = {"cs": 0, "ce": 0, "c": 0}
+    space = {"name": "go_internal_pts", "os": none, "oe": none, "is": none, "ie": none}
+    desc = {"kernels": [{"off": "go_offset_any", "pt": "go_ct", "sp": space},
+                        {"off": "go_offset_sw", "pt": "go_ct", "sp": space}]}
+    tmp = tempfile.mkdtemp(prefix="pv-c25r-")
+    with open(tmp + "/c25k_mod.f90", "w") as f:
+        f.write(B.kern_src(desc))
+    with open(tmp + "/alg.f90", "w") as f:
+        f.write(B.alg_src(desc))
+    from psyclone.parse.algorithm import parse
+    from psyclone.psyGen import PSyFactory
+    from psyclone.domain.gocean.transformations import (GOceanLoopFuseTrans,
+                                                        GOConstLoopBoundsTrans)
+    _, info = parse(tmp + "/alg.f90", api="gocean1.0", kernel_paths=[tmp])
+    psy = PSyFactory("gocean1.0", distributed_memory=False).create(info)
+    sched = psy.invokes.invoke_list[0].schedule
+    GOConstLoopBoundsTrans().apply(sched)
+    before = str(psy.gen)
+    psy = PSyFactory("gocean1.0", distributed_memory=False).create(info)
+    sched = psy.invokes.invoke_list[0].schedule
+    GOConstLoopBoundsTrans().apply(sched)
+    GOceanLoopFuseTrans().apply(sched[2], sched[3])
+    GOceanLoopFuseTrans().apply(sched[2].loop_body[0], sched[2].loop_body[1])
+    return "--- constant bounds\n" + before + "\n--- then fused\n" + str(psy.gen)
+
+
 if __name__ == "__main__":
     from pv import core
     core.setup_psyclone_env()
-    print(move_in_fused_loop() if sys.argv[1:] == ["move"] else fuse_same_name_other_offset())
+    print({"move": move_in_fused_loop, "fuse": fuse_same_name_other_offset,
+           "clb": clb_fused_mixed_offsets}[sys.argv[1]]())
